@@ -48,8 +48,67 @@ AREAS9 = [
  ("B19", ["rust-sdk/core/src/quote/liquidity.rs", "rust-sdk/core/src/math/token.rs", "rust-sdk/core/src/math/tick.rs"]),
  ("B20", ["rust-sdk/core/src/quote/swap.rs", "rust-sdk/core/src/math/tick_array.rs", "rust-sdk/core/src/math/adaptive_fee.rs"]),
 ]
+# wave 11: by ENTRY POINT (instruction or SDK function) instead of by file
+ENTRY11 = [
+ ("D01", ["swap (legacy instruction)"]),
+ ("D02", ["swap_v2"]),
+ ("D03", ["two_hop_swap (legacy instruction)"]),
+ ("D04", ["two_hop_swap_v2"]),
+ ("D05", ["increase_liquidity", "increase_liquidity_v2"]),
+ ("D06", ["increase_liquidity_by_token_amounts_v2"]),
+ ("D07", ["decrease_liquidity", "decrease_liquidity_v2"]),
+ ("D08", ["reposition_liquidity_v2"]),
+ ("D09", ["collect_fees", "collect_fees_v2", "update_fees_and_rewards"]),
+ ("D10", ["collect_reward", "collect_reward_v2", "initialize_reward", "initialize_reward_v2", "set_reward_emissions", "set_reward_emissions_v2"]),
+ ("D11", ["collect_protocol_fees", "collect_protocol_fees_v2", "set_protocol_fee_rate", "set_fee_rate", "set_default_fee_rate", "set_default_protocol_fee_rate"]),
+ ("D12", ["open_position", "open_position_with_metadata", "open_position_with_token_extensions", "close_position", "close_position_with_token_extensions"]),
+ ("D13", ["initialize_position_bundle", "initialize_position_bundle_with_metadata", "open_bundled_position", "close_bundled_position", "delete_position_bundle"]),
+ ("D14", ["lock_position", "transfer_locked_position", "reset_position_range"]),
+ ("D15", ["initialize_pool", "initialize_pool_v2", "initialize_pool_with_adaptive_fee"]),
+ ("D16", ["initialize_tick_array", "initialize_dynamic_tick_array (incl. its idempotent mode)"]),
+ ("D17", ["initialize_adaptive_fee_tier", "set_adaptive_fee_constants", "set_fee_rate_by_delegated_fee_authority", "set_delegated_fee_authority", "set_initialize_pool_authority", "set_preset_adaptive_fee_constants", "set_default_base_fee_rate"]),
+ ("D18", ["initialize_token_badge", "delete_token_badge", "set_token_badge_attribute", "set_token_badge_authority", "initialize_config_extension", "set_config_extension_authority", "set_config_feature_flag"]),
+ ("D19", ["rust-sdk/core: swap_quote_by_input_token, swap_quote_by_output_token (and what they call)"]),
+ ("D20", ["rust-sdk/core: increase_liquidity_quote*, decrease_liquidity_quote*, tick_index_to_sqrt_price, sqrt_price_to_tick_index, try_get_amount_delta_a/b (and what they call)"]),
+]
+
+def main11(tag, outdir):
+    os.makedirs(outdir, exist_ok=True)
+    root = os.path.dirname(os.path.dirname(os.path.abspath(__file__)))
+    brief = open(os.path.join(root, "notes/SEED_BRIEF.md")).read().split("\n---\n", 1)[1]
+    props = [json.loads(l) for l in open(os.path.join(root, "properties.jsonl"))]
+    metas = []
+    for d in sorted(glob.glob(os.path.join(root, "seeded", "[CAB]*"))):
+        try:
+            m = json.load(open(os.path.join(d, "meta.json")))
+        except Exception:
+            continue
+        metas.append((os.path.basename(d), str(m.get("breaks", ""))[:260]))
+    plist = "\n".join(f"* {p['id']} — {p['title']}. {p['statement']}" for p in props)
+    for aid, entries in ENTRY11:
+        keys = [e.split(" ")[0].split(":")[0] for e in entries]
+        used = [f"* {b}" for n, b in metas if any(k.lower() in b.lower() for k in keys)]
+        d = f"/tmp/{tag}_{aid}"
+        text = ("This time you are not given one property but a set of ENTRY POINTS. The repository is expected to satisfy all of the "
+                "following properties (each must hold for every input, history and configuration):\n\n" + plist +
+                "\n\nYour assigned entry points:\n" + "\n".join(f"  - {e}" for e in entries) +
+                "\n\nYour change may be made anywhere in the code these entry points execute (the dispatcher, the accounts struct and its "
+                "constraints, the Anchor or Pinocchio handler, managers, state methods, math, utilities), but it must manifest THROUGH one of "
+                "them: a user who only ever calls other entry points must not be able to notice it. Pick whichever of the properties above "
+                "your change breaks, and say which one in meta.json (\"property\": \"Cxx\").")
+        out = (brief.replace("{dir}", d).replace("{property}", text).replace("{used}", "\n".join(used[:40]) or "(none recorded for these entry points)")
+               .replace("{steer}", "Strongly preferred: a change whose effect depends on HISTORY or CONFIGURATION - it shows only after a particular sequence of at least "
+                        "three instructions, or only for an unusual but legal pool / mint / position configuration, or only for one of several account "
+                        "encodings - and that a reviewer reading the diff would take for a harmless tidy-up.")
+               .replace("{id}", "Cxx"))
+        out = out.replace("Earlier changes written against this property are listed here", "Earlier changes that mention these entry points are listed here")
+        open(os.path.join(outdir, aid + ".txt"), "w").write(out)
+        print(aid, len(out), len(used))
+
 def main():
     tag, outdir = sys.argv[1], sys.argv[2]
+    if tag.startswith("seed11"):
+        return main11(tag, outdir)
     os.makedirs(outdir, exist_ok=True)
     root = os.path.dirname(os.path.dirname(os.path.abspath(__file__)))
     brief = open(os.path.join(root, "notes/SEED_BRIEF.md")).read().split("\n---\n", 1)[1]
